@@ -29,6 +29,17 @@ CHECKS = {
     'C10': ('symbolic execution of the real detector functions on symbolic angles/geometry; rational-function identities by z3/cvc5 (QF_NRA); ray-parameter positivity by solver-checked assume-guarantee decomposition',
             'Bounded model checking over exact reals: det_coor = det_coor2, back-projected point on the scattered ray, det_v = v, detect_tilt = Rx.Ry.Rz orthonormal, '
             'denominator and ray parameter positive on the whole stated domain.', '', '6/C10'),
+    'C03': ('symbolic execution of the real rotation constructors and of u_to_euler/u_to_rod; path exploration of u_to_euler/_arctan2 with exact thresholds; identities and tolerance inequalities decided by z3/cvc5 (QF_NRA); assume-guarantee decomposition of the 1e-6 rebuild bound',
+            'Bounded model checking over exact reals: all constructors for all angles/vectors; u_to_euler explored path by path (about 570 paths in the quick tier) on the Bunge parametrisation of SO(3); '
+            'generic region exhaustive, gimbal-lock regions under a path/time budget (reported non-exhaustive, inconclusive obligations listed).', '', '6/C03'),
+    'C04': ('finite relation encoding of the live space-group tables; closure/inverse/duplicate/nuniq obligations with one symbolic member (QF_LIA, mod 24); metric preservation in linear real arithmetic over the whole conforming family',
+            'Model checking of all 237 tables: group axioms with a solver variable ranging over the table, metric preservation for every conforming cell at once; Laue order, centring count and name lookup are finite computations on the live tables.', '', '6/C04'),
+    'C09': ('symbolic execution of the four real omega solvers (paths: none/two solutions, sign forks); diffraction-condition identities and completeness facts decided by z3/cvc5 (QF_NRA)',
+            'Bounded model checking over exact reals: for every g direction, theta in (0.25,75) deg and tilts up to 0.5 rad each returned (omega,eta) satisfies the three component equations under the module\'s own matrix; '
+            'completeness via discriminant sign and affine structure of the condition; tth = 2 asin(lambda sintl) = tth2.', 'find_omega_quart is analysed with the proved summary of its callee quart_to_omega.', '6/C09'),
+    'C20': ('symbolic execution of the real input checks with numpy.allclose as its tolerance formula; accept/reject obligations as path (in)feasibility decided by z3/cvc5 (QF_NRA); switch semantics by enumeration of assigned objects over a symbolic pre-state',
+            'Bounded model checking: every proper rotation perturbed by <=1e-7 per entry is accepted, improper rotations and single-entry perturbations of 1e-3..1 are rejected at every guarded entry point, Euler-angle and UBI checks reject exactly the invalid inputs, '
+            'switch accepts only True/False.', '', '6/C20'),
 }
 NA_REASON = {}
 
